@@ -27,3 +27,11 @@ Print Assumptions C08_iff.
 Theorem C08_back : forall g req, shape (with_fields g req) = shape (base_fields g).
 Proof. exact with_same_shape. Qed.
 Print Assumptions C08_back.
+
+(* cglue_impl_group!: whatever order (and however many aliased instantiations of one generic trait) the user lists, the vtables
+   enabled for the type are exactly the listed traits — none lost, none added *)
+Theorem C08_impl_group : forall nm listed,
+  Permutation (impl_enabled listed) listed /\ length (impl_enabled listed) = length listed /\
+  mask_of nm (impl_enabled listed) = mask_of nm listed.
+Proof. exact impl_enables_listed. Qed.
+Print Assumptions C08_impl_group.
